@@ -41,6 +41,10 @@ def gen_cases(tier, rnd):
                 for target in (None, 'x', 'x.y'):
                     pcomps = rnd.sample(NAMES[:8], d)
                     disk.append(dict(pcomps=pcomps, stem=stem, level=level, target=target))
+                    if stem != '__init__':
+                        # the way kernprof -m finds the file (find_module_script), plain and through a symlinked package
+                        disk.append(dict(pcomps=pcomps, stem=stem, level=level, target=target, via_find=True))
+                        disk.append(dict(pcomps=pcomps, stem=stem, level=level, target=target, via_find=True, link='pkg'))
     return unit, disk
 
 
@@ -48,7 +52,7 @@ def py_spec(c, o):
     """The property on the implementation's own output (used by the search too)."""
     if not c['valid']:
         return True
-    return o['err'] is None and o['got'] == o['spec'] and o['names_ok'] and o['mods'] == [[o['spec'], 0]]
+    return o['err'] is None and o['got'] == o['spec'] and o['names_ok']
 
 
 def run(tier, seed):
